@@ -167,8 +167,8 @@ func runC16(c *core.Ctx) {
 			return
 		}
 		c.Res.Counters["strings_parsed"]++
-		if o&^defd != 0 && s != (o & defd).String() {
-			c.Violate("string-undefined-bit", fmt.Sprintf("Op(%#x).String()=%q but without its undefined bits %q", uint32(o), s, (o & defd).String()), uint32(o))
+		if o&^defd != 0 && s != (o&defd).String() {
+			c.Violate("string-undefined-bit", fmt.Sprintf("Op(%#x).String()=%q but without its undefined bits %q", uint32(o), s, (o&defd).String()), uint32(o))
 		}
 	}
 	distinct := map[string]fsnotify.Op{}
@@ -194,7 +194,7 @@ func runC16(c *core.Ctx) {
 				continue
 			}
 			if (p | bit).String() != p.String() {
-				c.Violate("string-undefined-bit", fmt.Sprintf("bit %d changes the text: %q vs %q", b, (p | bit).String(), p.String()), uint32(p|bit))
+				c.Violate("string-undefined-bit", fmt.Sprintf("bit %d changes the text: %q vs %q", b, (p|bit).String(), p.String()), uint32(p|bit))
 			}
 			c.Res.Counters["undefined_bit_flips"]++
 		}
